@@ -199,3 +199,84 @@ Example C01_roundtrip_nonvacuous :
   wf (Dict d) = true /\ writable_tree (Dict d) = true /\ (Z.of_nat (nq (Dict d)) <= 1000000)%Z /\ quoted_within 11 (Dict d) = true /\
   parse_string true [] 7 (to_string_plain d) = Ok (mkParsed (mkSD (kvs_of (map_leaves written_value (Dict d))) [] [] [] []) 15).
 Proof. vm_compute. repeat split; try reflexivity; discriminate. Qed.
+
+(* ================================================================================================== *)
+(* non-vacuity examples added after the reviewer's audit (Properties/C01_nv.v, 2026-10-01)         *)
+(* ================================================================================================== *)
+
+(* ==== non-vacuity instances obtained BY APPLYING the theorems above (added after review) ================== *)
+From Coq Require Import Lia.
+
+(* C01_unquote on a string with blanks, delimiters, braces, a backslash, a dollar and a comment marker *)
+Example C01_unquote_nonvacuous :
+  let s := of_string "a b; {x} \ $y // z (1 2)" in
+  (remove_quotes (sq s) = s /\ remove_quotes (dq s) = s) /\
+  sq s = of_string "'a b; {x} \ $y // z (1 2)'" /\ dq s = of_string """a b; {x} \ $y // z (1 2)""".
+Proof. intros s. split; [exact (C01_unquote s) | vm_compute; split; reflexivity]. Qed.
+
+(* C01_format_choice: both hypotheses computed, the three-way disjunction obtained from the theorem, for one string of
+   each alternative; the alternative actually taken is shown by computation *)
+Example C01_format_choice_applied :
+  let a := of_string "say ""hi"" {now}" in let b := of_string "it's; here" in let c := of_string "plain-1.x" in
+  let choice s := (format_string s = sq s /\ no_sq s = true) \/ (format_string s = dq s /\ no_dq s = true) \/
+     (format_string s = s /\ nonempty s = true /\ forallb (fun c => negb (is_struct_char c || is_quote c)) s = true) in
+  (choice a /\ choice b /\ choice c) /\
+  format_string a = of_string "'say ""hi"" {now}'" /\ format_string b = of_string """it's; here""" /\ format_string c = c.
+Proof.
+  intros a b c choice. split.
+  - repeat split; apply C01_format_choice; vm_compute; reflexivity.
+  - vm_compute. repeat split; reflexivity.
+Qed.
+
+(* C01_roundtrip: the quoted-leaves document of C01_roundtrip_nonvacuous, counter -1 (a fresh BorgCounter) and a
+   counter five steps before the six-digit wrap-around (eight quoted leaves: the numbering wraps inside the document) *)
+Example C01_roundtrip_applied :
+  let d := [(KS (of_string "alpha"), Leaf (SStr (of_string "two words")));
+    (KI 3, Dict [(KS (of_string "b"), Lst [Leaf (SStr (of_string "it's")); Lst [Leaf (SStr (of_string "say ""hi"" now"))];
+                                             Dict [(KS (of_string "c"), Leaf (SStr (of_string "a;b")))]]);
+                 (KS (of_string "e"), Leaf (SStr (of_string "")))]);
+    (KS (of_string "w"), Leaf (SStr (of_string " true "))); (KS (of_string "p"), Leaf (SStr (of_string "C:\dir\")));
+    (KS (of_string "q"), Leaf (SStr (of_string "(")))] in
+  let dirc := of_string "/some/dir" in
+  wf (Dict d) = true /\ writable_tree (Dict d) = true /\ (Z.of_nat (nq (Dict d)) <= 1000000)%Z /\ quoted_within 11 (Dict d) = true /\
+  nq (Dict d) = 8%nat /\
+  (exists count', parse_string true dirc (-1) (to_string_plain d) =
+      Ok (mkParsed (mkSD (kvs_of (map_leaves written_value (Dict d))) [] [] [] []) count')) /\
+  (exists count', parse_string true dirc 999994 (to_string_plain d) =
+      Ok (mkParsed (mkSD (kvs_of (map_leaves written_value (Dict d))) [] [] [] []) count')) /\
+  parse_string true dirc 999994 (to_string_plain d) =
+      Ok (mkParsed (mkSD (kvs_of (map_leaves written_value (Dict d))) [] [] [] []) 2).
+Proof.
+  intros d dirc.
+  assert (Hw : wf (Dict d) = true) by (vm_compute; reflexivity).
+  assert (Hwr : writable_tree (Dict d) = true) by (vm_compute; reflexivity).
+  assert (Hn : (Z.of_nat (nq (Dict d)) <= 1000000)%Z) by (vm_compute; discriminate).
+  assert (Hq : quoted_within 11 (Dict d) = true) by (vm_compute; reflexivity).
+  refine (conj Hw (conj Hwr (conj Hn (conj Hq (conj _ (conj _ (conj _ _))))))).
+  - vm_compute. reflexivity.
+  - apply C01_roundtrip; [exact Hw | exact Hwr | lia | exact Hn | exact Hq].
+  - apply C01_roundtrip; [exact Hw | exact Hwr | lia | exact Hn | exact Hq].
+  - vm_compute. reflexivity.
+Qed.
+
+(* C01_roundtrip_refuted: the statement refuted is the one without the three side conditions; the input that refutes it
+   (a quoted literal eleven keys deep) satisfies the two remaining premises and makes the reader raise *)
+Example C01_roundtrip_refuted_witness :
+  wf (Dict ce_deep) = true /\ writable_tree (Dict ce_deep) = true /\ quoted_within 11 (Dict ce_deep) = false /\
+  parse_string true [] 0%Z (to_string_plain ce_deep) = Raise E_Recursion /\
+  ~ (forall kvs dirc count, wf (Dict kvs) = true -> writable_tree (Dict kvs) = true ->
+     exists count', parse_string true dirc count (to_string_plain kvs) =
+       Ok (mkParsed (mkSD (kvs_of (map_leaves written_value (Dict kvs))) [] [] [] []) count')).
+Proof. refine (conj _ (conj _ (conj _ (conj _ C01_roundtrip_refuted)))); vm_compute; reflexivity. Qed.
+
+(* C01_string_unchanged: strings that need quotes and that the classifier leaves alone (blanks, an apostrophe, a
+   delimiter, a trailing backslash) come back as themselves *)
+Example C01_string_unchanged_nonvacuous :
+  let l := map of_string ["two words"; "it's"; "a;b"; "C:\dir\"; "say ""hi"" now"]%string in
+  Forall (fun s => writable_leaf (SStr s) = true /\ parse_value s = Ok (SStr s) /\ written_value (SStr s) = SStr s) l.
+Proof.
+  assert (A : forall s, writable_leaf (SStr s) = true -> parse_value s = Ok (SStr s) ->
+              writable_leaf (SStr s) = true /\ parse_value s = Ok (SStr s) /\ written_value (SStr s) = SStr s)
+    by (intros s H1 H2; exact (conj H1 (conj H2 (C01_string_unchanged s H1 H2)))).
+  intros l. repeat (apply Forall_cons; [apply A; vm_compute; reflexivity|]). apply Forall_nil.
+Qed.
